@@ -136,7 +136,7 @@ def main(prop, tier, seed, replay):
         crashed = {(l["kind"], l["sid"]) for l in all_lines if l["result"] == "crashed"}
         sample = [dict(kind=l["kind"], content=l["content"], entry=l["entry"], crash_at=l["crash_at"],
                        result=l["raw"], post=l["post"]) for l in all_lines if l["result"] == "crashed"][:3]
-        ev = dict(property_id=prop, tier=tier, seed=seed, level="model_checking" if not drift else "exploration",
+        ev = dict(property_id=prop, tier=tier, seed=seed, level="model_checking",
                   coverage=dict(states=max(1, sum(s["distinct"] for s in stats)),
                                 transitions=max(1, sum(s["generated"] for s in stats)),
                                 traces_validated_against_impl=len(histories),
